@@ -5,6 +5,7 @@ pub mod c03;
 pub mod c04;
 pub mod c06;
 pub mod c07;
+pub mod c10;
 pub mod c11;
 pub mod c11w;
 pub mod c12;
